@@ -46,10 +46,14 @@ Fixpoint upd_nth {A} (n : nat) (f : A -> A) (l : list A) : list A :=
   | x :: r => match n with O => f x :: r | S m => x :: upd_nth m f r end
   end.
 
-(* nthN / skipnN that never convert an out-of-range (possibly 2^64-sized) index to nat: same value,
-   but the extracted program terminates quickly on any index (Container_proofs.nthS_eq, skipnS_eq) *)
+(* nthN / skipnN / firstnN that never convert an out-of-range (possibly 2^64-sized) index to nat and never
+   measure the whole list: same value, but the extracted program is fast on any index
+   (Container_proofs.nthS_eq, skipnS_eq, firstnS_eq) *)
 Definition nthS {A} (l : list A) (i : N) : option A := if i <? lenN l then nthN l i else None.
-Definition skipnS {A} (n : N) (l : list A) : list A := if lenN l <=? n then [] else skipnN n l.
+Fixpoint skipnS {A} (n : N) (l : list A) : list A :=
+  match l with [] => [] | _ :: r => if n =? 0 then l else skipnS (N.pred n) r end.
+Fixpoint firstnS {A} (n : N) (l : list A) : list A :=
+  match l with [] => [] | x :: r => if n =? 0 then [] else x :: firstnS (N.pred n) r end.
 
 (* ------------------------------------------------------------------ writer *)
 Record wstream := mkWS { ws_name : list N; ws_raw : N; ws_parts : list part }.
@@ -303,8 +307,9 @@ Definition read_part_data (max_off : N) (file : list N) (p : part) : list N * ou
        | Some pos =>
          match read_varint (skipnS pos file) with
          | Ok (meta, _, c) =>
-           ([p_size p],                    (* vec![0u8; part.size as usize] *)
-            if p_size p <=? lenN c then Ok (firstnN (p_size p) c, meta) else Err)
+           ([p_size p],                    (* vec![0u8; part.size as usize]; read_exact: all of it or Err *)
+            let d := firstnS (p_size p) c in
+            if lenN d =? p_size p then Ok (d, meta) else Err)
          | Err => ([], Err)
          | Panic => ([], Panic)
          end
